@@ -421,6 +421,47 @@ fn vec_like(report: &Report, depth: usize) {
         drive!("FallibleIteratorReadWords over a filtered (inexact) iterator", FallibleIteratorReadWords::new((0..2 * n).filter(|i| i % 2 == 0).map(|i| Ok::<u8, ()>(40 + i / 2))));
         drive!("FallibleIteratorReadWords over iter::from_fn", { let mut k = 0u8; FallibleIteratorReadWords::new(std::iter::from_fn(move || { k += 1; if k <= n { Some(Ok::<u8, ()>(39 + k)) } else { None } })) });
     }
+    // the BOUNDED contract (remaining / is_exhausted) of exact-size iterator sources, bare and behind `Reverse` (which
+    // swaps the semantics) and behind two `Reverse`s, in both semantics: at every step `remaining()` is the number of
+    // reads that will still succeed and `is_exhausted()` says whether that number is zero
+    for n in 0..=4u8 {
+        macro_rules! bounded {
+            ($name:literal, $sem:ty, $src:expr) => {{
+                let mut it = $src;
+                for k in 0..(n as usize + 2) {
+                    let rem = BoundedReadWords::<u8, $sem>::remaining(&it);
+                    let exh = BoundedReadWords::<u8, $sem>::is_exhausted(&it);
+                    let may = ReadWords::<u8, $sem>::maybe_exhausted(&it);
+                    let left = (n as usize).saturating_sub(k);
+                    total += 1;
+                    if rem != left {
+                        bad.push((format!("{} | remaining() differs from the reads that succeed", $name), format!("source of {n} words after {k} reads: {rem}")));
+                    }
+                    if exh != (left == 0) {
+                        bad.push((format!("{} | is_exhausted() disagrees with the reads that succeed", $name), format!("source of {n} words after {k} reads: is_exhausted {exh}, {left} reads still succeed")));
+                    }
+                    if !may && left == 0 {
+                        bad.push((format!("{} | maybe_exhausted() returned false but the next read found no data", $name), format!("source of {n} words after {k} reads")));
+                    }
+                    let got = ReadWords::<u8, $sem>::read(&mut it);
+                    if got.ok().flatten().is_some() != (left > 0) {
+                        bad.push((format!("{} | read disagrees with the source", $name), format!("source of {n} words, read #{k}")));
+                    }
+                }
+            }};
+        }
+        let src = || FallibleIteratorReadWords::new((0..n).map(|i| Ok::<u8, ()>(40 + i)));
+        bounded!("FallibleIteratorReadWords (exact size), queue semantics", Queue, src());
+        bounded!("FallibleIteratorReadWords (exact size), stack semantics", Stack, src());
+        bounded!("Reverse<FallibleIteratorReadWords> (exact size), stack semantics", Stack, Reverse(src()));
+        bounded!("Reverse<FallibleIteratorReadWords> (exact size), queue semantics", Queue, Reverse(src()));
+        bounded!("Reverse<Reverse<FallibleIteratorReadWords>> (exact size), queue semantics", Queue, Reverse(Reverse(src())));
+        bounded!("Reverse<Reverse<FallibleIteratorReadWords>> (exact size), stack semantics", Stack, Reverse(Reverse(src())));
+        bounded!("Vec, stack semantics", Stack, (0..n).collect::<Vec<u8>>());
+        bounded!("Reverse<Vec>, queue semantics", Queue, Reverse((0..n).collect::<Vec<u8>>()));
+        bounded!("SmallVec, stack semantics", Stack, (0..n).collect::<smallvec::SmallVec<[u8; 2]>>());
+        bounded!("Reverse<SmallVec>, queue semantics", Queue, Reverse((0..n).collect::<smallvec::SmallVec<[u8; 2]>>()));
+    }
     // callback adapters
     let mut sink = vec![];
     {
